@@ -41,6 +41,22 @@ func (r *Responder) Respond(w http.ResponseWriter, req *http.Request, code int, 
 	return err
 }
 
+// isLocalRedirect reports whether a client supplied redirect target is a path on
+// this site. It must be rooted, must not be scheme-relative ("//host", "/\host")
+// and must not contain backslashes or control characters: browsers treat '\' like
+// '/' and drop tabs and newlines, so such values can resolve to another origin.
+func isLocalRedirect(redir string) bool {
+	if len(redir) == 0 || redir[0] != '/' {
+		return false
+	}
+	for i := 0; i < len(redir); i++ {
+		if c := redir[i]; c == '\\' || c < 0x20 || c == 0x7f {
+			return false
+		}
+	}
+	return len(redir) == 1 || redir[1] != '/'
+}
+
 func isAPIRequest(r *http.Request) bool {
 	return strings.HasPrefix(r.Header.Get("Content-Type"), "application/json")
 }
@@ -77,7 +93,7 @@ func (r *Redirector) Redirect(w http.ResponseWriter, req *http.Request, ro authb
 func (r Redirector) redirectAPI(w http.ResponseWriter, req *http.Request, ro authboss.RedirectOptions) error {
 	path := ro.RedirectPath
 	redir := req.FormValue(r.FormValueName)
-	if strings.Contains(redir, "://") {
+	if !isLocalRedirect(redir) {
 		// Guard against Open Redirect: https://cwe.mitre.org/data/definitions/601.html
 		redir = ""
 	}
@@ -127,7 +143,7 @@ func (r Redirector) redirectAPI(w http.ResponseWriter, req *http.Request, ro aut
 func (r Redirector) redirectNonAPI(w http.ResponseWriter, req *http.Request, ro authboss.RedirectOptions) error {
 	path := ro.RedirectPath
 	redir := req.FormValue(r.FormValueName)
-	if strings.Contains(redir, "://") {
+	if !isLocalRedirect(redir) {
 		// Guard against Open Redirect: https://cwe.mitre.org/data/definitions/601.html
 		redir = ""
 	}
